@@ -1,6 +1,9 @@
 package ecs
 
-import "unsafe"
+import (
+	"math"
+	"unsafe"
+)
 
 // Unsafe provides access to Ark's unsafe ID-based API.
 // Get an instance via [World.Unsafe].
@@ -180,8 +183,16 @@ func (u Unsafe) LoadEntities(data *EntityDump) {
 
 	capacity := len(data.Entities)
 
-	entities := make([]Entity, capacity)
+	// Keep at least the capacity of the old pool, with invalidated generations behind the loaded entities.
+	// Alive reads generations without a bounds check, so handles of entities
+	// that were removed by a previous Reset would be reported alive again otherwise.
+	total := max(capacity, cap(u.world.storage.entityPool.entities))
+	entities := make([]Entity, total)
 	copy(entities, data.Entities)
+	for i := capacity; i < total; i++ {
+		entities[i].gen = math.MaxUint32
+	}
+	entities = entities[:capacity]
 
 	if capacity > 0 {
 		u.world.storage.entityPool = entityPool{
